@@ -8,6 +8,7 @@ import (
 	"bytes"
 	"net/http"
 	"regexp"
+	"regexp/syntax"
 	"strconv"
 	"strings"
 
@@ -309,8 +310,19 @@ func constructMatchStyleRegex(s *Segment) (*regexp.Regexp, []string, error) {
 			}
 
 			binds = append(binds, p.Ident)
+
+			// The expression must be valid on its own, and its own capturing groups must
+			// not shift the positions of sub-matches that are paired with bind parameters.
+			expr, err := syntax.Parse(*p.Value.Regex, syntax.Perl)
+			if err != nil {
+				return nil, nil, errors.Wrapf(err, "compile regexp near position %d", e.Pos.Offset)
+			}
 			buf.WriteString("(")
-			buf.WriteString(*p.Value.Regex)
+			if expr.MaxCap() > 0 {
+				buf.WriteString(stripCaptures(expr).String())
+			} else {
+				buf.WriteString(*p.Value.Regex)
+			}
 			buf.WriteString(")")
 		}
 	}
@@ -321,6 +333,18 @@ func constructMatchStyleRegex(s *Segment) (*regexp.Regexp, []string, error) {
 		return nil, nil, errors.Wrapf(err, "compile regexp near position %d", s.Pos.Offset)
 	}
 	return re, binds, nil
+}
+
+// stripCaptures turns all capturing groups of the expression into non-capturing
+// groups.
+func stripCaptures(re *syntax.Regexp) *syntax.Regexp {
+	for re.Op == syntax.OpCapture {
+		re = re.Sub[0]
+	}
+	for i, sub := range re.Sub {
+		re.Sub[i] = stripCaptures(sub)
+	}
+	return re
 }
 
 // getParentBindSet returns a set of all bind parameters defined in parent
